@@ -92,6 +92,23 @@ cdef class _Indexer:
         if self.cumprod != NULL:
             mem.PyMem_Free(self.cumprod)
 
+cdef int _check_dimensions(size_t rows, size_t cols, _Indexer index) except -1:
+    """
+    Test that the tensor dimensions held by `index` describe a matrix of shape
+    (rows, cols): every side of the matrix which is not of length one (bra or
+    ket) must have as many elements as the product of the dimensions.
+    """
+    if (
+        (rows != 1 and rows != index.size)
+        or (cols != 1 and cols != index.size)
+        or (rows == 1 and cols == 1 and index.size != 1)
+    ):
+        raise ValueError(
+            "dimensions do not match the matrix shape "
+            + str((rows, cols))
+        )
+    return 0
+
 cdef bint _check_indices(size_t size, idxint[:] order) except True:
     """
     Test whether the permutation `order` is a valid permutation of `size`
@@ -280,6 +297,7 @@ cpdef CSR dimensions_csr(CSR matrix, object dimensions, object order):
     cdef _Indexer index = _Indexer(np.asarray(dimensions, dtype=idxint_dtype),
                                    np.asarray(order, dtype=idxint_dtype))
     cdef idxint[:] permutation
+    _check_dimensions(matrix.shape[0], matrix.shape[1], index)
     if matrix.shape[0] == 1 and matrix.shape[1] == 1 or csr.nnz(matrix) == 0:
         return matrix.copy()
     if matrix.shape[0] == 1:
@@ -306,6 +324,7 @@ cpdef CSR dimensions_csr(CSR matrix, object dimensions, object order):
 cpdef Dense dimensions_dense(Dense matrix, object dimensions, object order):
     cdef _Indexer index = _Indexer(np.asarray(dimensions, dtype=idxint_dtype),
                                    np.asarray(order, dtype=idxint_dtype))
+    _check_dimensions(matrix.shape[0], matrix.shape[1], index)
     cdef idxint[:] permutation = index.all()
     row_perm, col_perm = None, None
     if matrix.shape[0] != 1:
